@@ -16,7 +16,7 @@ def main(argv):
     path = argv[2] if batch else argv[1]
     with open(path) as f:
         doc = json.load(f)
-    pid = doc["property"]
+    pid = doc["property"].replace("_unconfirmed", "")
     mod = importlib.import_module("vf.checks." + pid.lower())
     datas = doc["batch"] if batch else [doc["data"]]
     out = []
